@@ -33,6 +33,7 @@ EXPLANATION = (
   ' (LOOP-break) no loop over the items of a collection is left by a branch that does nothing but `break` on a test about the item (end-of-input sentinels, flags set in the loop body and searches whose variable is read afterwards excepted): an item that is to be skipped does not end the processing of the items after it;'
   + common.SHARED_CLAUSES['validators'] + common.SHARED_CLAUSES['truthy']
   + common.SHARED_CLAUSES['rubykids']
+  + " (LIVE-alias) a model method that iterates a list-backed view of `self` while adding to the same list of another parameter declared with its own class (copy_to) first returns when that parameter is the object itself: `x.copy_to(x)` ends;"
 )
 RULE_TEXT = "one instance per element kind, link-field store, guard, mutator, store site, registry writer"
 UNDECIDED = ["arbitrary call histories as such (the rules are the per-operation preconditions, not the induction)",
@@ -432,6 +433,8 @@ def _is_registered_region_test(t) -> bool:
 
 
 def run(ctx):
+  from ..rules import live as _live_a
+  ctx.floor("LIVE-alias", "loops of the model that read a view of self and fill another object of the same class", _live_a.check_live_self_alias(ctx, ctx.ix.funcs_in("ttconv.model")), 3)
   common.check_shared_helpers(ctx, validators=True, truthy_modules=["ttconv.model", "ttconv.isd"], rubykids=True)
   ix = ctx.ix
   mf = ModelFacts(ix)
